@@ -1,6 +1,6 @@
 (* C14 correspondence: observations of the real pkg/util/wait (fastBackoffImpl, BackoffUntil), of the
    config defaulting, and of whole frps/frpc processes (liveness driver) against the models. *)
-From FRP Require Export Corr.Common Model.Backoff Model.Heartbeat Model.Relogin Model.CliDispatch gen.GenBackoffOpts Proofs.GenCliDispatch.
+From FRP Require Export Corr.Common Model.Backoff Model.Heartbeat Model.Relogin Model.CliDispatch Model.SrvTeardown gen.GenBackoffOpts Proofs.GenCliDispatch.
 Open Scope Z_scope.
 
 Definition mkopts (d fn fd jn jd mx init fc fdel fjn fjd fw : Z) : fb_opts :=
@@ -12,6 +12,7 @@ Definition mkopts (d fn fd jn jd mx init fc fdel fjn fjd fw : Z) : fb_opts :=
 Record obs_call := { oc_now : Z; oc_prev : Z; oc_err : bool; oc_delay : Z;
                      oc_cec : Z; oc_counts : Z; oc_cutoff : option Z }.
 Definition OC := Build_obs_call.
+Definition SR (at_ name dur : Z) : sreg := {| sr_at := at_; sr_name := name; sr_dur := dur |}.
 
 (* one Backoff call as seen by a recording wrapper inside the real BackoffUntil *)
 Record obs_iter := { oi_out : bu_outcome; oi_now : Z; oi_prev : Z; oi_err : bool; oi_delay : Z }.
@@ -32,6 +33,11 @@ Inductive case :=
 | CCliStarve (iv T : Z) (arrivals : list carrival) (closed_at until slack : Z)
 (* the session's remote port could be bound again [released_after] ms after the close (-1: not within the probe window) *)
 | CRelease (closed_at released_after bound : Z)
+(* a session died (connection closed at [cut]) while the registrations [regs] were in flight; observed: every
+   remote port could be bound again after the teardown, and a real frpc then registered the same names/ports *)
+| CTeardown (regs : list sreg) (cut : Z) (all_released reregistered : bool)
+(* N clients with different identities, each pinging validly every [every] ms for [window] ms: sessions each used *)
+| CNoFlap (T every window : Z) (sessions_per_client : list Z) (pong_errors : Z)
 (* gaps (ms) between consecutive failed login attempts of one loopLoginUntilSuccess(max_interval) *)
 | CLoginGaps (max_interval : Z) (gaps : list Z) (slack : Z).
 
@@ -240,6 +246,15 @@ Definition check_case (c : case) : Z :=
       if closed_at <? 0 then 80
       else if released_after <? 0 then 81        (* torn down on the wire but its resources never released *)
       else if bound <? released_after then 82 else 0
+  | CTeardown regs cut all_released reregistered =>
+      if negb all_released then 91                 (* a registration outlived its session: resources not released *)
+      else if negb reregistered then 92            (* the returning client could not re-register *)
+      else match st_leaked (st_run gen_srv_async_newproxy 0 cut regs) with [] => 0 | _ => 93 end
+  | CNoFlap T every window sessions pong_errors =>
+      (* valid heartbeats with gaps <= T: the model keeps every session (C14_live_peer_never_torn_down): one session each *)
+      if T * hb_sec <? every then 0
+      else if negb (forallb (fun n => n =? 1) sessions) then 95
+      else if negb (pong_errors =? 0) then 96 else 0
   | CLoginGaps mx gaps slack =>
       match bu_start (gen_login_opts mx) 0 0 with
       | Some st => check_gaps (gen_login_opts mx) st st gaps slack
